@@ -39,10 +39,11 @@ Theorem C02_schedule_decompose : forall (T Q C : Type) r (p : list (action T Q C
 Proof. exact schedule_decompose. Qed.
 Print Assumptions C02_schedule_decompose.
 
-(* the published table is immutable: the read-only users of route.GetTable() can be added to or
-   removed from any schedule without changing any lookup result, the table in the cell or any
-   reader's snapshot (the correspondence run replays such schedules on the real handlers and runs
-   them concurrently with lookups under the race detector) *)
+(* MECHANISM LEMMAS, not results.  "The published table is immutable" is a MODELLING ASSUMPTION:
+   [ARead] is defined as a no-op of the cell, so these two statements restate that definition (they
+   say which reorderings of a schedule the model considers equal).  That the real readers do not write
+   the table is checked by the correspondence run only: the schedules are replayed on the real
+   handlers and run concurrently with lookups under the race detector (seeded C02-E). *)
 Theorem C02_readers_do_not_change_table : forall (T Q C R : Type) (look : T -> Q -> C -> R) s cell l,
   run_cell T Q C R look cell l s = run_cell T Q C R look cell l (without_reads T Q C s)
   /\ exec_cell T Q C R look cell l s = exec_cell T Q C R look cell l (without_reads T Q C s).
@@ -54,6 +55,7 @@ Theorem C02_readers_do_not_change_current : forall (T Q C : Type) t0 (s : list (
 Proof. exact readers_do_not_change_current. Qed.
 Print Assumptions C02_readers_do_not_change_current.
 
+(* mechanism lemma (one unfolding of the model's SetTable); tied to the code by the forced schedules *)
 Theorem C02_set_nil_ignored : forall (T : Type) (cell : T), set_table T cell None = cell.
 Proof. exact set_nil_ignored. Qed.
 Print Assumptions C02_set_nil_ignored.
@@ -62,6 +64,47 @@ Theorem C02_nil_store_invisible : forall (T Q C : Type) t0 (p s : list (action T
   current T Q C t0 (p ++ ASet None :: s) = current T Q C t0 (p ++ s).
 Proof. exact nil_store_invisible. Qed.
 Print Assumptions C02_nil_store_invisible.
+
+(* PREVIOUS OR NEW, literally.  Take any SetTable(Tn) in any schedule and the stretch up to the next
+   successful SetTable: a lookup whose reader called GetTable after it is answered by Tn; a lookup whose
+   reader called GetTable before it is answered by the table of that earlier moment
+   (C02_lookup_single_snapshot applied to the prefix), installed before Tn. *)
+Theorem C02_lookup_sees_new_after_set :
+  forall (T Q C R : Type) (look : T -> Q -> C -> R) t0 pa Tn pb1 pb2 r q c rest,
+  no_set_some T Q C pb1 = true -> no_load T Q C r pb2 = true ->
+  nth_error (run_cell T Q C R look t0 (no_locals T)
+               ((pa ++ ASet (Some Tn) :: pb1) ++ ALoad r :: pb2 ++ ALookup r q c :: rest))
+            (count_lookups T Q C ((pa ++ ASet (Some Tn) :: pb1) ++ ALoad r :: pb2))
+  = Some (r, q, c, Some (look Tn q c)).
+Proof. exact lookup_sees_new_after_set. Qed.
+Print Assumptions C02_lookup_sees_new_after_set.
+
+(* THE SYSTEM AS A WHOLE: the update loop (any builder, any history) is the writer - the SetTable calls
+   of the schedule are exactly what the loop emits - and any number of readers run beside it in any
+   interleaving.  Every lookup is answered by the start table or by the complete table the builder
+   returned for ONE candidate text of the history. *)
+Theorem C02_system_lookup_single_table :
+  forall (Q C R : Type) (look : btable -> Q -> C -> R) build w h t0 p1 p2 r q c rest,
+  sets_of btable Q C (p1 ++ ALoad r :: p2 ++ ALookup r q c :: rest) = loop_emits build w h ->
+  no_load btable Q C r p2 = true ->
+  exists Tb, (Tb = t0 \/ exists cand, In cand (candidates build w h) /\ build cand = Ok Tb)
+    /\ nth_error (run_cell btable Q C R look t0 (no_locals btable) (p1 ++ ALoad r :: p2 ++ ALookup r q c :: rest))
+                 (count_lookups btable Q C (p1 ++ ALoad r :: p2))
+       = Some (r, q, c, Some (look Tb q c)).
+Proof. exact system_lookup_single_table. Qed.
+Print Assumptions C02_system_lookup_single_table.
+
+(* the same with the custom backend as the writer (one SetTable per poll, nil on error) *)
+Theorem C02_system_lookup_single_table_custom :
+  forall (Q C R : Type) (look : btable -> Q -> C -> R) cbuild polls t0 p1 p2 r q c rest,
+  sets_of btable Q C (p1 ++ ALoad r :: p2 ++ ALookup r q c :: rest) = map (poll_emit cbuild) polls ->
+  no_load btable Q C r p2 = true ->
+  exists Tb, (Tb = t0 \/ exists ds, In ds polls /\ cbuild ds = Ok Tb)
+    /\ nth_error (run_cell btable Q C R look t0 (no_locals btable) (p1 ++ ALoad r :: p2 ++ ALookup r q c :: rest))
+                 (count_lookups btable Q C (p1 ++ ALoad r :: p2))
+       = Some (r, q, c, Some (look Tb q c)).
+Proof. exact system_lookup_single_table_custom. Qed.
+Print Assumptions C02_system_lookup_single_table_custom.
 
 Theorem C02_cell_nonvacuous :
   let look := fun (t : N) (q : N) (_ : unit) => (t * 10 + q)%N in
@@ -88,16 +131,40 @@ Theorem C02_watch_no_crash : forall (build : str -> outcome btable) h w,
 Proof. exact wrun_no_crash. Qed.
 Print Assumptions C02_watch_no_crash.
 
-(* ... and the composed NewTable never panics (C02_new_table_total below): for every history of
-   service / manual deliveries the loop never reaches [Crashed] and IS C01's loop.  The only
-   hypothesis: no route ever holds more than 3*10^9 targets (C04's bound). *)
+(* ... and neither ParseAliases nor the composed NewTable ever panics (C02_new_table_total below), so
+   for every history the loop - its whole modelled body, [loop_body] - never reaches [Crashed] and IS
+   C01's loop.  Hypothesis: the CANDIDATE texts of this history (not all texts: that would be false for
+   any realistic library) stay within C04's bound of 3*10^9 targets per route.
+   Not modelled in the loop body: logRoutes (third-party diff library) - harness only. *)
 Theorem C02_watch_never_crashes : forall pweight canon glob_ok order, perm_order order ->
-  (forall text ds, scan_parse pweight text = Ok ds -> Forall route_ok (reached canon glob_ok [] ds)) ->
   forall h w,
-    wrun (full_build pweight canon glob_ok (ring_faithful order)) (Running w) h
-    = Running (Watch.run btable (build_opt (full_build pweight canon glob_ok (ring_faithful order))) w h).
+    let fb := full_build pweight canon glob_ok (ring_faithful order) in
+    (forall c, In c (candidates (loop_body (parse_aliases pweight) fb) w h) ->
+       forall ds, scan_parse pweight c = Ok ds -> Forall route_ok (reached canon glob_ok [] ds)) ->
+    wrun (loop_body (parse_aliases pweight) fb) (Running w) h
+    = Running (Watch.run btable (build_opt (loop_body (parse_aliases pweight) fb)) w h).
 Proof. exact watch_never_crashes. Qed.
 Print Assumptions C02_watch_never_crashes.
+
+(* the hypothesis is satisfiable and the conclusion holds on the history that killed the process
+   before 290c777 (valid, syntax error, empty, `weight Inf`, valid) *)
+Theorem C02_watch_never_crashes_nonvacuous :
+  (forall c, In c (candidates fb_body (Watch.w_init btable []) crash_history) ->
+     forall ds, scan_parse pw_wit c = Ok ds -> Forall route_ok (reached canon_wit glob_wit [] ds))
+  /\ wrun fb_body (Running (Watch.w_init btable [])) crash_history
+     = Running (Watch.run btable (build_opt fb_body) (Watch.w_init btable []) crash_history).
+Proof. exact watch_never_crashes_nonvacuous. Qed.
+Print Assumptions C02_watch_never_crashes_nonvacuous.
+
+Theorem C02_parse_aliases_never_panics : forall pweight text, parse_aliases pweight text <> Panic.
+Proof. exact parse_aliases_np. Qed.
+Print Assumptions C02_parse_aliases_never_panics.
+
+(* the invariant the three theorems below assume holds in every reachable state of the loop *)
+Theorem C02_watch_inv_reachable : forall (build : str -> outcome btable) t0 h,
+  Proofs.Watch.inv btable (build_opt build) (Watch.run btable (build_opt build) (Watch.w_init btable t0) h).
+Proof. exact watch_inv_reachable. Qed.
+Print Assumptions C02_watch_inv_reachable.
 
 (* C01's theorems therefore hold for the loop as it runs: an invalid candidate changes nothing visible
    and does not block the next valid one; *)
@@ -153,7 +220,9 @@ Theorem C02_keeps_last_good_only_on_rejection : forall pweight canon glob_ok ord
 Proof. exact keeps_last_good_only_on_rejection. Qed.
 Print Assumptions C02_keeps_last_good_only_on_rejection.
 
-(* the custom backend: error -> table kept (through SetTable's nil guard), table -> installed *)
+(* the custom backend: error -> table kept (through SetTable's nil guard), table -> installed (two
+   one-step mechanism lemmas), and over any SEQUENCE of polls the table is that of the last poll
+   NewTableCustom accepted *)
 Theorem C02_custom_keeps_last_good : forall cbuild cell ds k,
   cbuild ds = Err k -> custom_step cbuild cell ds = Some cell.
 Proof. exact custom_keeps_last_good. Qed.
@@ -162,6 +231,12 @@ Theorem C02_custom_installs : forall cbuild cell ds bt,
   cbuild ds = Ok bt -> custom_step cbuild cell ds = Some bt.
 Proof. exact custom_installs. Qed.
 Print Assumptions C02_custom_installs.
+
+Theorem C02_polls_keep_last_good : forall cbuild polls cell,
+  (forall ds, In ds polls -> cbuild ds <> Panic) ->
+  polls_run cbuild cell polls = Some (last_accepted cbuild cell polls).
+Proof. exact polls_keep_last_good. Qed.
+Print Assumptions C02_polls_keep_last_good.
 
 (* ============ (3) no configuration text can crash the process ============ *)
 
@@ -311,6 +386,14 @@ Theorem C02_new_table_total :
        lookup_full hostglob_ok bt host tls uri m globoff total <> Panic.
 Proof. exact new_table_total. Qed.
 Print Assumptions C02_new_table_total.
+
+(* Table.LookupHost (the TCP / SNI proxies' entry point) on a table the build returned *)
+Theorem C02_lookup_host_total : forall pweight canon glob_ok order text bt host total, perm_order order ->
+  (forall ds, scan_parse pweight text = Ok ds -> Forall route_ok (reached canon glob_ok [] ds)) ->
+  full_build pweight canon glob_ok (ring_faithful order) text = Ok bt ->
+  lookup_host bt host total <> Panic.
+Proof. exact lookup_host_total_built. Qed.
+Print Assumptions C02_lookup_host_total.
 
 (* the same for the custom backend's builder (no text, no parser) *)
 Theorem C02_custom_build_total : forall canon glob_ok order ds t, perm_order order ->
